@@ -4,6 +4,7 @@ package zzverif
 
 import (
 	"errors"
+	"strconv"
 
 	lucene "github.com/grindlemire/go-lucene"
 	"github.com/grindlemire/go-lucene/pkg/driver"
@@ -92,24 +93,7 @@ type foldChecker struct {
 	bad bool // structural mismatch (concrete)
 }
 
-func intString(i int) string {
-	if i == 0 {
-		return "0"
-	}
-	neg := i < 0
-	if neg {
-		i = -i
-	}
-	var b []byte
-	for i > 0 {
-		b = append([]byte{byte('0' + i%10)}, b...)
-		i /= 10
-	}
-	if neg {
-		return "-" + string(b)
-	}
-	return string(b)
-}
+func intString(i int) string { return strconv.Itoa(i) }
 
 func sqlQuote(s string) string {
 	var b []byte
